@@ -11,17 +11,49 @@
     Exp::Number
     Exp::Variable
     Exp::Abs
+    Exp::Min
+    Exp::Max
     Exp::And(_)|Exp::Or(_)|Exp::Not(_)|Exp::Xor(_,_)|Exp::Implies(_,_)|Exp::Iff(_,_)
     Exp::BinOp
     Exp::UnOp
 @fn BoundsAnalyzer::bounds_of @entry
-    proof { lemma_exp_fin(*exp); lemma_exp_fin(*exp->BinOp_1); lemma_exp_fin(*exp->BinOp_2); }
+    proof { lemma_exp_fin(*exp); lemma_exp_fin(*exp->BinOp_1); lemma_exp_fin(*exp->BinOp_2); lemma_exp_fin_list(*exp); }
 @fn BoundsAnalyzer::bounds_of @tail 6
     // logic connectives evaluate to 0 or 1
     proof { assert forall|env: Env| sem(*exp, env) is Some implies #[trigger] sem(*exp, env)->Some_0 == 0real || sem(*exp, env)->Some_0 == 1real by { lemma_logic_01(*exp, env); } }
 @fn BoundsAnalyzer::bounds_of @tail 9
     // c * e: the interval is scaled by the constant on the left
     proof { assert forall|env: Env| #[trigger] sem(*exp, env) is Some implies sem(*exp, env) == Some(rmul_s(sem(*rhs, env)->Some_0, rv(*value))) by { lemma_mul_comm(sem(*rhs, env)->Some_0, rv(*value)); } }
+@fn BoundsAnalyzer::bounds_of @loop 1
+    invariant
+        vx_n1 == vx_v1@.len(), vx_n1 >= 1, box_wf(*self), wf(vx_acc1),
+        forall|j: int| 0 <= j < vx_v1@.len() ==> exp_fin(#[trigger] vx_v1@[j]),
+        forall|env: Env| #[trigger] box_ok(*self, env) ==> (sem_fold(vx_v1@, env, true, vx_i1 as int) matches Some(v) ==> contains(vx_acc1, v)),
+@fn BoundsAnalyzer::bounds_of @loop 1 @end
+    proof {
+        assert forall|env: Env| #[trigger] box_ok(*self, env) implies (sem_fold(vx_v1@, env, true, vx_i1 as int + 1) matches Some(v) ==> contains(vx_acc1, v)) by {
+            if sem_fold(vx_v1@, env, true, vx_i1 as int + 1) is Some {
+                let x = sem(vx_v1@[vx_i1 as int], env)->Some_0;
+                let y = sem_fold(vx_v1@, env, true, vx_i1 as int)->Some_0;
+                lemma_extreme_box(current, next, vx_acc1, y, x, true);
+            }
+        }
+    }
+@fn BoundsAnalyzer::bounds_of @loop 2
+    invariant
+        vx_n2 == vx_v2@.len(), vx_n2 >= 1, box_wf(*self), wf(vx_acc2),
+        forall|j: int| 0 <= j < vx_v2@.len() ==> exp_fin(#[trigger] vx_v2@[j]),
+        forall|env: Env| #[trigger] box_ok(*self, env) ==> (sem_fold(vx_v2@, env, false, vx_i2 as int) matches Some(v) ==> contains(vx_acc2, v)),
+@fn BoundsAnalyzer::bounds_of @loop 2 @end
+    proof {
+        assert forall|env: Env| #[trigger] box_ok(*self, env) implies (sem_fold(vx_v2@, env, false, vx_i2 as int + 1) matches Some(v) ==> contains(vx_acc2, v)) by {
+            if sem_fold(vx_v2@, env, false, vx_i2 as int + 1) is Some {
+                let x = sem(vx_v2@[vx_i2 as int], env)->Some_0;
+                let y = sem_fold(vx_v2@, env, false, vx_i2 as int)->Some_0;
+                lemma_extreme_box(current, next, vx_acc2, y, x, false);
+            }
+        }
+    }
 @raw
 pub proof fn lemma_mul_comm(x: real, y: real) ensures rmul_s(x, y) == rmul_s(y, x) { reveal(rmul_s); assert(x * y == y * x) by (nonlinear_arith); }
 pub proof fn lemma_all_01(es: Seq<Exp>, env: Env, is_and: bool, n: int)
@@ -40,3 +72,10 @@ pub proof fn lemma_logic_01(e: Exp, env: Env)
         _ => {}
     }
 }
+// the componentwise min (max) of two ranges encloses the min (max) of any two members
+pub proof fn lemma_extreme_box(a: Bounds, b: Bounds, r: Bounds, y: real, x: real, is_min: bool)
+    requires wf(a), wf(b), contains(a, y), contains(b, x),
+        is_min ==> fv(r.lower) == ext_min(fv(a.lower), fv(b.lower)) && fv(r.upper) == ext_min(fv(a.upper), fv(b.upper)),
+        !is_min ==> fv(r.lower) == ext_max(fv(a.lower), fv(b.lower)) && fv(r.upper) == ext_max(fv(a.upper), fv(b.upper)),
+    ensures wf(r), contains(r, if is_min { rmin(y, x) } else { rmax(y, x) }),
+{}
